@@ -16,10 +16,15 @@ OBVIOUS_REDIRECTS_RE = re.compile(
     % r"(?:redirect(?:_to)?|target|redir|next|link|orig|goto|url|[luq])",
     re.I,
 )
+LETTER_ESCAPES_RE = re.compile(r"%(?:4[1-9A-F]|5[0-9A]|6[1-9A-F]|7[0-9A])", re.I)
 REDIRECTION_DOMAINS_RE = re.compile(
     r"(?:\.ampproject\.org(?::\d+)?/[cv]/(?:s/)?|bc\.marfeelcache\.com(?::\d+)?/amp/|bc\.marfeel\.com(?::\d+)?/)",
     re.I,
 )
+
+
+def _unescape_letter(match):
+    return chr(int(match.group(0)[1:], 16))
 
 
 def infer_redirection(url, recursive=True):
@@ -37,6 +42,11 @@ def infer_redirection(url, recursive=True):
         string: Redirected url or the original url if nothing was found.
     """
 
+    # NOTE: percent-encoded letters must not hide a redirect-like key or a
+    # cache domain ("?%75rl=" is "?url=")
+    original_url = url
+    url = LETTER_ESCAPES_RE.sub(_unescape_letter, url)
+
     redirection_split = REDIRECTION_DOMAINS_RE.split(url, 1)
 
     target = None
@@ -52,7 +62,7 @@ def infer_redirection(url, recursive=True):
         if obvious_redirect_match is not None:
             if obvious_redirect_match.group(1) == "q":
                 if "/url?q=" not in url and "/redirect" not in url:
-                    return url
+                    return original_url
 
             potential_target = unquote(obvious_redirect_match.group(2))
 
@@ -73,7 +83,7 @@ def infer_redirection(url, recursive=True):
                 target = "https://" + potential_target
 
     if target is None:
-        return url
+        return original_url
 
     # NOTE: a target embedded in the url is strictly shorter than the url. When
     # it is not (a relative target joined back onto itself), recursing again
